@@ -20,6 +20,9 @@ def run(ctx):
     # verif hook): each pod is bound / nominated / evicted at most once per committed statement and per cycle
     n = 400 if ctx.quick else 6000
     st_cluster.run_stage(ctx, ["C13_"], [("mixed", n // 2), ("full", n // 4), ("elastic", n // 4)])
+    # the solver's abandoned node attempts (by_pod_solver rolls back to a checkpoint and tries the next node): what an
+    # abandoned attempt evicted must not reach the cluster - judged on the victims the real cycle emits
+    st_cluster.run_stage(ctx, ["C13_Abandoned"], [("abandon", 600 if ctx.quick else 8000)], tag="-abandon")
 
 
 def replay(ctx, obj):
